@@ -92,12 +92,14 @@ class C01(PropCheck):
         return out
 
     def known_witnesses(self):
-        return [{"id": "F2", "case": {"k": "f2"}}]
+        return [{"id": "F2", "case": {"k": "f2"}}, {"id": "F12", "case": {"k": "f12"}}]
 
     def run_real(self, case):
         self._probs = []
         if case["k"] == "f2":
             return self.run_f2()
+        if case["k"] == "f12":
+            return self.run_f12()
         src = progs.gen_program(random.Random(case["pseed"]), case["kind"], case["depth"])
         case["_src"] = src
         probs: List[str] = []
@@ -116,6 +118,35 @@ class C01(PropCheck):
             if not case["_facts"]["disjoint"]:
                 probs.append("the code object's exception table is not sorted / disjoint: the hypothesis of C01_walk_chain is not met")
         return json.dumps([[r["lasti"], r["got"]] for r in recs])
+
+    def run_f12(self):
+        import stackscope
+
+        async def helper(tag):
+            await progs.trap()
+            return False
+
+        class Mgr:
+            async def __aenter__(self):
+                return self
+
+            def __aexit__(self, *exc):
+                return helper("notself")
+
+        async def prog():
+            async with Mgr():
+                pass
+
+        c = prog()
+        c.send(None)
+        try:
+            st = stackscope.extract(c)
+            ctx = st.frames[0].contexts
+            if ctx and ctx[-1].is_exiting and not isinstance(ctx[-1].obj, Mgr):
+                self._probs.append(f"F12: the exiting context's obj is {ctx[-1].obj!r}, not the manager")
+            return repr([(type(x.obj).__name__, x.is_exiting) for x in ctx])
+        finally:
+            c.close()
 
     def run_f2(self):
         src = ("async def prog(W, ns, d):\n    async with W.AM():\n        try:\n            pad = 1\n        except Boom:\n            pad = 2\n")
@@ -144,6 +175,8 @@ class C01(PropCheck):
         if case.get("k") == "f2":
             f2 = [p for p in probs if self.is_f2(p)]
             return f2[0] if f2 else None
+        if case.get("k") == "f12":
+            return probs[0] if probs else None
         if self.f2_known:
             # an observation point at which the F2 warning fired is degraded as a whole (fallback analysis)
             if any(self.is_f2(p) for p in probs):
